@@ -81,6 +81,7 @@ async def calculate_in_subprocess(func: Callable[..., Union[T, Awaitable[T]]], *
     rx, tx = Pipe(duplex=False)  # receiver & transmitter ; Pipe is one-way only
     process = Process(target=_inner, args=(tx, func, *args), kwargs=kwargs)
     process.start()
+    tx.close()  # only the subprocess holds the write end now, so a dying subprocess produces EOF on rx
 
     event = asyncio.Event()
     loop = asyncio.get_event_loop()
@@ -92,10 +93,13 @@ async def calculate_in_subprocess(func: Callable[..., Union[T, Awaitable[T]]], *
     loop.remove_reader(fd=rx.fileno())
     event.clear()
 
-    result = rx.recv()
+    try:
+        result = rx.recv()
+    except EOFError:  # the subprocess terminated without sending a result
+        result = SubprocessError(ex=ChildProcessError('The subprocess terminated without returning a result.'))
+
     process.join()  # this blocks synchronously! make sure that process is terminated before you call join()
     rx.close()
-    tx.close()
 
     if isinstance(result, SubprocessError):
         raise result.exception
